@@ -38,25 +38,32 @@ type scenario struct {
 
 func scenarios(thorough bool) []scenario {
 	b2 := 2
+	if thorough {
+		b2 = 3
+	}
 	all := []scenario{
 		// the two submissions depend on each other (a2 follows a1, a3 is queued until a2 arrives) while the block [a1] is cut
 		{Name: "chain-vs-commit", Cfg: "default", Setup: []string{"add:a1"}, Threads: [][]string{{"add:a2"}, {"add:a3"}, {"commit-reaped"}}, Bound: b2},
 		// conflicting confidential spends race each other and a commit
 		{Name: "double-spend-vs-commit", Cfg: "default", Setup: []string{"add:b0"}, Threads: [][]string{{"add:u1"}, {"add:u2"}, {"commit-reaped"}}, Bound: b2},
-		// a block that conflicts with pool content (twin of a1) is committed while the chain a2,a3 is extended
+		// a block that conflicts with pool content (twin of a1, which also makes a2 unaffordable) is committed while the chain is extended
 		{Name: "conflicting-block", Cfg: "default", Setup: []string{"add:a1", "add:a2"}, Threads: [][]string{{"add:a3"}, {"add:b0"}, {"commit-other:a1x"}}, Bound: b2},
-		// full pool: submissions are queued / refused while the commit frees the slots and promotes
+		// full pool: submissions are queued / refused while the commit frees the slot and promotes
 		{Name: "full-pool", Cfg: "s1f4q1", Setup: []string{"add:a1"}, Threads: [][]string{{"add:a2"}, {"add:b0"}, {"commit-reaped"}}, Bound: b2},
-		// the same transaction submitted twice (two wire copies) and the twin, against a commit
+		// the same transaction submitted twice (two wire copies) and its twin, against a commit
 		{Name: "duplicate-submission", Cfg: "s2f2q2", Setup: nil, Threads: [][]string{{"add:a1"}, {"add:a1", "add:a1x"}, {"commit-reaped"}}, Bound: b2},
+		// queued transactions are promoted by a submission and by a commit at the same time
+		{Name: "promotion-vs-commit", Cfg: "s2f2q2", Setup: []string{"add:a3", "add:a2"}, Threads: [][]string{{"add:a1"}, {"add:b0"}, {"commit-reaped"}}, Bound: b2},
+		// the pooled spend's output is spent by a block from elsewhere while the conflicting spend is submitted
+		{Name: "spend-committed-elsewhere", Cfg: "default", Setup: []string{"add:u1"}, Threads: [][]string{{"add:u2"}, {"add:c0"}, {"commit-other:u2"}}, Bound: b2},
 	}
 	if !thorough {
 		return all
 	}
 	return append(all,
-		scenario{Name: "spend-committed-elsewhere", Cfg: "default", Setup: []string{"add:u1"}, Threads: [][]string{{"add:u2"}, {"add:a1"}, {"commit-other:u2"}}, Bound: b2},
 		scenario{Name: "two-commits", Cfg: "s2f2q2", Setup: []string{"add:a1", "add:a2", "add:a3"}, Threads: [][]string{{"add:b0"}, {"add:u1"}, {"commit-reaped", "commit-reaped"}}, Bound: b2},
-		scenario{Name: "underfunded-after-commit", Cfg: "default", Setup: []string{"add:a1"}, Threads: [][]string{{"add:a2"}, {"add:a1x"}, {"commit-other:a1x"}}, Bound: b2},
+		scenario{Name: "underfunded-after-commit", Cfg: "default", Setup: []string{"add:a1"}, Threads: [][]string{{"add:a2"}, {"add:a3", "add:b0"}, {"commit-other:a1x"}}, Bound: b2},
+		scenario{Name: "four-threads", Cfg: "s2f2q2", Setup: []string{"add:a1"}, Threads: [][]string{{"add:a2"}, {"add:b0"}, {"add:u1"}, {"commit-reaped"}}, Bound: 2},
 	)
 }
 
@@ -276,11 +283,14 @@ func unmanaged(f func()) {
 
 // ---- exploration of the schedule tree ------------------------------------------------------------------------------
 
-type concJob struct {
+type concCase struct {
 	Scenario string
-	Bound    int
-	Prefixes [][]int
-	Subtree  bool // false: run each prefix once and return its children; true: explore everything below each prefix
+	Prefix   []int
+}
+
+type concJob struct {
+	Cases   []concCase
+	Subtree bool // false: run each prefix once and return its children; true: explore everything below each prefix
 }
 
 type concViolation struct {
@@ -317,26 +327,30 @@ func children(c *chooser, from, bound int) [][]int {
 }
 
 func concWorker(r *vk.Run, job *concJob) {
-	var sc *scenario
+	byName := map[string]*scenario{}
+	need := map[string]bool{}
 	for _, s := range scenarios(!r.Quick()) {
-		if s.Name == job.Scenario {
-			s := s
-			sc = &s
-		}
+		s := s
+		byName[s.Name] = &s
 	}
-	if sc == nil {
-		vk.Fatalf("unknown scenario %q", job.Scenario)
+	for _, c := range job.Cases {
+		sc := byName[c.Scenario]
+		if sc == nil {
+			vk.Fatalf("unknown scenario %q", c.Scenario)
+		}
+		need[sc.Cfg] = true
 	}
 	var pcs []poolCfg
 	for _, pc := range allCfgs {
-		if pc.Name == sc.Cfg {
+		if need[pc.Name] {
 			pcs = append(pcs, pc)
 		}
 	}
 	u := buildUniverse(!r.Quick(), pcs)
-	vk.WorkerLoop(len(job.Prefixes), func(i int) interface{} {
+	vk.WorkerLoop(len(job.Cases), func(i int) interface{} {
+		sc := byName[job.Cases[i].Scenario]
 		res := &concResult{ByCost: map[int]int{}, Finals: map[string]int{}}
-		stack := [][]int{job.Prefixes[i]}
+		stack := [][]int{job.Cases[i].Prefix}
 		for len(stack) > 0 {
 			if r.Expired() {
 				res.Expired = true
@@ -358,7 +372,7 @@ func concWorker(r *vk.Run, job *concJob) {
 			if er.Final != "" {
 				res.Finals[hashKey(er.Final)]++
 			}
-			kids := children(c, len(p), job.Bound)
+			kids := children(c, len(p), sc.Bound)
 			if job.Subtree {
 				stack = append(stack, kids...)
 			} else {
@@ -371,6 +385,9 @@ func concWorker(r *vk.Run, job *concJob) {
 
 type concStats struct {
 	Name         string
+	Cfg          string
+	Setup        []string
+	Threads      [][]string
 	Bound        int
 	Executions   int
 	ChoicePoints int
@@ -378,29 +395,40 @@ type concStats struct {
 	DistinctEnds int
 	MaxPoints    int
 	Capped       bool
-	Threads      [][]string
-	Setup        []string
-	Cfg          string
+	finals       map[string]int
 }
 
-func runScenario(r *vk.Run, sc scenario) concStats {
-	st := concStats{Name: sc.Name, Bound: sc.Bound, ByCost: map[int]int{}, Threads: sc.Threads, Setup: sc.Setup, Cfg: sc.Cfg}
-	finals := map[string]int{}
-	round := func(prefixes [][]int, subtree bool) (kids [][]int) {
-		job := concJob{Scenario: sc.Name, Bound: sc.Bound, Prefixes: prefixes, Subtree: subtree}
-		path := filepath.Join(scratchDir(), fmt.Sprintf("conc-%s-%v.json", sc.Name, subtree))
+// runConc explores all scenarios in two batches of worker cases: the default schedule of every scenario (returns its
+// direct deviations), then the complete subtree below every deviation.
+func runConc(r *vk.Run, u *universe) (states, trans, evals int) {
+	var scs []scenario
+	stats := map[string]*concStats{}
+	for _, sc := range scenarios(!r.Quick()) {
+		if *flagOnly != "" && *flagOnly != sc.Name {
+			continue
+		}
+		scs = append(scs, sc)
+		stats[sc.Name] = &concStats{Name: sc.Name, Cfg: sc.Cfg, Setup: sc.Setup, Threads: sc.Threads, Bound: sc.Bound, ByCost: map[int]int{}, finals: map[string]int{}}
+	}
+	t0 := time.Now()
+	round := func(cases []concCase, subtree bool) (kids []concCase) {
+		if len(cases) == 0 {
+			return nil
+		}
+		job := concJob{Cases: cases, Subtree: subtree}
+		path := filepath.Join(scratchDir(), fmt.Sprintf("conc-%v.json", subtree))
 		data, _ := json.Marshal(job)
 		if err := ioutil.WriteFile(path, data, 0600); err != nil {
 			vk.Fatalf("job file: %v", err)
 		}
 		defer os.Remove(path)
-		results := make([]*concResult, len(prefixes))
-		r.RunIsolated(len(prefixes), vk.IsoOpts{CaseTimeout: 30 * time.Minute, Workers: isoWorkers(),
+		results := make([]*concResult, len(cases))
+		r.RunIsolated(len(cases), vk.IsoOpts{CaseTimeout: 30 * time.Minute, Workers: isoWorkers(),
 			ExtraArgs: []string{"--c15-job", path, "--c15-part", "conc", "--budget", r.Remaining().String()}},
 			func(i int, raw json.RawMessage, fatal string) {
 				if fatal != "" {
-					r.Violation("process-dies@concurrent:"+fatal, fmt.Sprintf("scenario %s, schedules below %v: %s", sc.Name, prefixes[i], fatal),
-						map[string]interface{}{"scenario": sc.Name, "choices": prefixes[i]})
+					r.Violation("process-dies@concurrent:"+fatal, fmt.Sprintf("scenario %s, schedules below %v: %s", cases[i].Scenario, cases[i].Prefix, fatal),
+						map[string]interface{}{"scenario": cases[i].Scenario, "choices": cases[i].Prefix})
 					results[i] = &concResult{}
 					return
 				}
@@ -411,6 +439,7 @@ func runScenario(r *vk.Run, sc scenario) concStats {
 				results[i] = res
 			})
 		for i, res := range results {
+			st := stats[cases[i].Scenario]
 			if res == nil || res.Expired {
 				st.Capped = true
 				if res == nil {
@@ -423,51 +452,50 @@ func runScenario(r *vk.Run, sc scenario) concStats {
 				st.ByCost[k] += v
 			}
 			for k, v := range res.Finals {
-				finals[k] += v
+				st.finals[k] += v
 			}
 			if res.MaxPoints > st.MaxPoints {
 				st.MaxPoints = res.MaxPoints
 			}
 			for _, v := range res.Viol {
-				r.Violation(v.Key, v.What, map[string]interface{}{"scenario": sc.Name, "config": sc.Cfg, "setup": sc.Setup, "threads": sc.Threads,
+				r.Violation(v.Key, v.What, map[string]interface{}{"scenario": st.Name, "config": st.Cfg, "setup": st.Setup, "threads": st.Threads,
 					"choices": v.Choices, "schedule_thread_ids": v.Trace})
 			}
-			kids = append(kids, res.Children...)
-			_ = i
+			for _, k := range res.Children {
+				kids = append(kids, concCase{cases[i].Scenario, k})
+			}
 		}
 		return kids
 	}
-	kids := round([][]int{nil}, false)
-	if len(kids) > 0 && !st.Capped {
-		sort.SliceStable(kids, func(i, j int) bool { return len(kids[i]) < len(kids[j]) })
+	var roots []concCase
+	for _, sc := range scs {
+		roots = append(roots, concCase{sc.Name, nil})
+	}
+	kids := round(roots, false)
+	// interleave the scenarios so that every worker gets a similar mix
+	sort.SliceStable(kids, func(i, j int) bool { return len(kids[i].Prefix) < len(kids[j].Prefix) })
+	if !r.Expired() {
 		round(kids, true)
+	} else if len(kids) > 0 {
+		for _, st := range stats {
+			st.Capped = true
+		}
 	}
-	if st.Capped {
-		r.Capped(fmt.Sprintf("conc/%s: deadline inside the exploration of bound %d (%d executions done)", sc.Name, sc.Bound, st.Executions))
-	}
-	st.DistinctEnds = len(finals)
-	return st
-}
-
-func runConc(r *vk.Run, u *universe) (states, trans, evals int) {
 	var per []interface{}
-	for _, sc := range scenarios(!r.Quick()) {
-		if *flagOnly != "" && *flagOnly != sc.Name {
-			continue
+	for _, sc := range scs {
+		st := stats[sc.Name]
+		st.DistinctEnds = len(st.finals)
+		if st.Capped {
+			r.Capped(fmt.Sprintf("conc/%s: deadline inside the exploration of bound %d (%d executions done)", sc.Name, sc.Bound, st.Executions))
 		}
-		if r.Expired() {
-			r.Capped("conc/" + sc.Name + ": not started (deadline)")
-			continue
-		}
-		t0 := time.Now()
-		st := runScenario(r, sc)
-		fmt.Printf("conc/%-26s bound %d: executions=%d by_preemptions=%v choice_points=%d max_points=%d distinct_final_states=%d capped=%v %.1fs\n",
-			sc.Name, sc.Bound, st.Executions, st.ByCost, st.ChoicePoints, st.MaxPoints, st.DistinctEnds, st.Capped, time.Since(t0).Seconds())
+		fmt.Printf("conc/%-26s bound %d: executions=%d by_preemptions=%v choice_points=%d max_points=%d distinct_final_states=%d capped=%v\n",
+			sc.Name, sc.Bound, st.Executions, st.ByCost, st.ChoicePoints, st.MaxPoints, st.DistinctEnds, st.Capped)
 		states += st.DistinctEnds
 		trans += st.Executions
 		evals += st.Executions
 		per = append(per, st)
 	}
+	fmt.Printf("conc: %.1fs\n", time.Since(t0).Seconds())
 	r.Set("conc_scenarios", per)
 	return
 }
